@@ -1,12 +1,12 @@
 CONSTANTS
   MaxUI = 4
   Kinds = {"finite"}
-  ShowBumpsVersion = FALSE
+  ShowBumpsVersion = TRUE
   TemplateHasQ = FALSE
   H = 2
   LensKind = "one"
   WithScroll = FALSE
   DelayedSetsVersion <- TreeDelayedSetsVersion
 SPECIFICATION Spec
-INVARIANTS TypeOK OneAlive ConvergenceStaleAfterShow
+INVARIANTS TypeOK OneAlive ShownIsStarted Convergence ShowFixed DelayedFixed RowsOfOneRequest ExitClean
 CHECK_DEADLOCK FALSE
